@@ -88,7 +88,7 @@ PROPS['C11'] = {
                   'logging histories / dump instants on the real logging blackbox (real log.c, log_blackbox.c, log_format.c, ring and dump file) '
                   'against the list of records logged before the dump',
     'level_note': 'dump/read-back instants are between operations only (the property does not promise mid-operation dumps); trusts kernel tmpfs/mmap; '
-                  'blackbox part: libqb\'s own internal messages (tag bit 31) share the blackbox and are skipped when the run of serials is judged; '
+                  'blackbox part: libqb\'s own internal messages (recognised by their source line numbers, all below 5000) share the blackbox and are skipped when the run of serials is judged; '
                   'how many records must be retained is not judged (only: at least the newest, and no gap)',
     'technique': 'deterministic simulation (seeded histories with the read-back/dump instant chosen by the scheduler, suffix reference model, ddmin replay); '
                  'the blackbox part runs inside a simulator task with the libc seam active and no fault enabled (the fault-free baseline of C15)',
@@ -118,15 +118,20 @@ PROPS['C15'] = {
                   'bound, leaving no /dev/shm/qb-create_from_file-* behind; samples the space, does not enumerate it',
     'level_note': 'records printed from a damaged file are not compared with anything; a text whose serialized form does not fit the line length may be '
                   'printed as the library\'s "too long" notice or cut; one trailing newline may be dropped (as every libqb target does); the extended-'
-                  'information marker is expected as "|"; the mmap region of the re-created ring is not ASan-instrumented (out-of-range indices show up '
-                  'as SIGSEGV or not at all); posix_fallocate above 64 MiB is refused by the seam so that a lying word_size cannot exhaust memory',
+                  'information marker is expected as "|"; the ring the printer re-creates is a plain mmap that ASan does not watch, so the harness gives it '
+                  'an address range of its own between PROT_NONE regions (every other free gap is plugged just before libqb reserves the range): an index '
+                  'outside the double mapping faults at once and identically in every process; every run executes in a child process of its own '
+                  '(qb_log_fini does not reset the dynamic call-site counter, so runs would otherwise depend on their predecessors); '
+                  'posix_fallocate above 64 MiB is refused by the seam so that a lying word_size cannot exhaust memory; libqb\'s own messages '
+                  '(line numbers below 5000) share the blackbox and are skipped by the round-trip comparison; stimulus groups that trigger a '
+                  'listed known finding are switched off in the generator (tokens in harness/blackbox.cc)',
     'technique': 'deterministic simulation with storage-fault injection at the file seam (short / failing / lost writes, short / failing reads as explicit '
                  '(task, kind, n-th call) fault records), crash-after-k-th-write and at-rest corruption of the durable state, virtual clock, '
                  'record-list reference model, ASan, ddmin replay',
     'design_ref': 'DESIGN.md 4/C15',
     'real': REAL_BLACKBOX, 'stub': STUB_BLACKBOX,
     'assumptions': ['single logging thread; dump and print happen between log calls',
-                    'line numbers below 65536; priorities 0..8; tags without bit 31 (reserved for libqb\'s own messages)'],
+                    'line numbers 5001..65535 (the dynamic call-site table is indexed by line; lower numbers are left to libqb\'s own messages); priorities 0..8; tags without bit 31'],
 }
 
 REAL_LOOP = ['lib/loop.c', 'lib/loop_job.c', 'lib/loop_timerlist.c', 'include/tlist.h', 'lib/loop_poll.c', 'lib/loop_poll_epoll.c',
@@ -324,6 +329,10 @@ PROPS['C06'] = _ipc('a hostile sim-process writing arbitrary handshake bytes and
     assumptions=['the hostile peer can only use the channels the handshake gave it'])
 
 PROPS['C16'] = {
+    # C16 speaks of "a producer": messages of several threads logging at the same instant are not judged (a second
+    # thread entering the logger while another is inside is turned away by libqb's recursion guard; demanding its
+    # delivery would ask for more than the property states), so that plan shape is never generated
+    'always_avoid': ['concurrent-producers'],
     'parts': [{'harness': 'logthread', 'chunk': 100, 'det_chunks_thorough': 20}],
     'quick_s': 40, 'thorough_s': 900,
     'level_quick': 'exploration', 'level_thorough': 'exploration',
